@@ -51,7 +51,7 @@ fn expect_reads(n: usize, evs: &[String]) -> (Vec<String>, Vec<u8>) {
     let mut flat: Vec<E> = vec![];
     for e in evs {
         match e.as_str() {
-            "i" => flat.push(E::I),
+            "i" | "n" => flat.push(E::I),
             "e" | "t" => flat.push(E::Err),
             "z" => flat.push(E::Z),
             d => {
@@ -148,6 +148,14 @@ pub fn c15(thorough: bool, rng: &mut Rng, out: &mut Out) {
         evs.insert(i, "i".into());
         read_case(out, 2, evs, true);
     }
+    // a reader that itself uses the codec (reads, writes and decodes a frame on another stream) before answering,
+    // at every call index: Frame::read must tolerate being re-entered on the same thread
+    for i in 0..=singles.len() {
+        let mut evs = singles.clone();
+        evs.insert(i, "n".into());
+        out.stat("read.nested-codec-use");
+        read_case(out, 2, evs, true);
+    }
     // an error / zero read at every call index
     for kind in ["e", "z", "t"] {
         for i in 0..=singles.len() {
@@ -199,6 +207,22 @@ pub fn c15(thorough: bool, rng: &mut Rng, out: &mut Out) {
             }
         }
         read_case(out, k + 1, evs, true);
+    }
+    // very short lines (the line feed within the first dozen bytes: empty lines, noise, truncated frames) followed
+    // by a frame and trailing bytes, under every fragmentation into two reads and as single bytes: a read that
+    // fetches a fixed-size head in bulk would run past the line feed
+    for short in [&b"\n"[..], b"\r\n", b":\n", b"x\r\n", b":01\r\n", b":0100\n", b":010003\r\n", b":01000302\n", b":01000302F\n", b"0123456789\n", b"\n\n", b"\r\n\r\n"] {
+        let mut stream = short.to_vec();
+        stream.extend_from_slice(&f0);
+        stream.extend_from_slice(b"tail");
+        let nreads = 1 + short.iter().filter(|b| **b == b'\n').count() + 1;
+        for cut in 0..=stream.len().min(16) {
+            let evs: Vec<String> = if cut == 0 { vec![format!("d:{}", hex_of(&stream))] } else { vec![format!("d:{}", hex_of(&stream[..cut])), format!("d:{}", hex_of(&stream[cut..]))] };
+            out.stat("read.short-line-then-frame");
+            read_case(out, nreads, evs, true);
+        }
+        let singles2: Vec<String> = stream.iter().map(|b| format!("d:{:02X}", b)).collect();
+        read_case(out, nreads, singles2, true);
     }
     // very long lines: line noise without a line feed, far longer than any frame, is still ONE line — it is
     // consumed through its line feed and the frame behind it is the next read's (a cap on the line buffer shows)
@@ -507,9 +531,41 @@ fn c16_multi(out: &mut Out) {
     check(out, format!("serialm {} {} | d:{} | e", show_msg(&q), show_msg(&h), hex_of(&w2)), vec!["err".into(), format!("ok {}", show_msg(&r2))]);
 }
 
+/// The reply line is the request's own frame (a two-wire adapter echoing the transmitter), followed by the sign's
+/// real reply: the echo is a line like any other — it is the reply, and the real one stays in the port.
+fn c16_echo(out: &mut Out) {
+    let a = 3u16;
+    let real = msg_wire(&Message::ReportState(Address(a), State::PageLoaded));
+    let mut reqs: Vec<Message<'static>> = vec![Message::Hello(Address(a)), Message::QueryState(Address(a)), Message::Hello(Address(0xFFFF))];
+    for o in OPS {
+        reqs.push(Message::RequestOperation(Address(a), o));
+    }
+    for m in reqs {
+        for lower in [false, true] {
+            let mut echo = msg_wire(&m);
+            if lower {
+                echo = echo.to_ascii_lowercase();
+            }
+            for only_echo in [false, true] {
+                let mut tape = echo.clone();
+                if !only_echo {
+                    tape.extend_from_slice(&real);
+                }
+                let i = out.case(format!("serial {} | d:{} |", show_msg(&m), hex_of(&tape)), true);
+                out.stat("serial.echoed-request-as-reply");
+                serial_oracle(out, i, &m, &show_msg(&m), if only_echo { &[] } else { &real }, false, false);
+            }
+        }
+    }
+}
+
 pub fn c16(thorough: bool, rng: &mut Rng, out: &mut Out) {
     c16_every_length(thorough, out);
     c16_multi(out);
+    c16_echo(out);
+    if thorough {
+        long_transfer_on_one_bus(out, "C16");
+    }
     out.rule = "every message kind (hello / query / goodbye / pixels-complete / chunk count over 5 addresses, 6 requests, 6 acks, 13 reports, unknown frames, data chunks of length 0/1/16/255/random) x reply tapes; unknown frames of every data length 0..=255 (and data chunks of every length in the thorough tier) with no reply due; (13 states, 6 acks, unknown, data, malformed, bad checksum, empty, bare CRLF) each followed by extra bytes; a write failure at the first and at a later write call; a read failure; non-trivial = every case; distinct = distinct case line".into();
     out.exhaustive_note = "kinds x reply tapes complete for the listed parameter values; data chunk cases limited (each sleeps 30 ms)".into();
     let n_sd = if thorough { 40 } else { 10 };
@@ -627,9 +683,12 @@ pub fn c18(thorough: bool, rng: &mut Rng, out: &mut Out) {
             (vec![q.clone(), q.clone(), q.clone(), q.clone()], vec![sp.clone(), lp.clone(), sp.clone(), pl.clone()]),
             (vec![cs.clone(), q.clone(), cs.clone()], vec![pl.clone()]),
         ];
-        for (msgs, replies) in runs {
+        // each run on a healthy port and on a port whose flush() fails (`F`): the library never needs flush, and a
+        // version that calls it must not let its failure cancel the pause owed for a chunk that is already written
+        let runs: Vec<(Vec<Message<'static>>, Vec<Message<'static>>, &str)> = runs.iter().cloned().map(|(m, r)| (m, r, "")).chain(runs.iter().cloned().map(|(m, r)| (m, r, " F"))).collect();
+        for (msgs, replies, wr) in runs {
             let tape: Vec<u8> = replies.iter().flat_map(|r| msg_wire(r)).collect();
-            let line = format!("serialmt {} | {} |", msgs.iter().map(show_msg).collect::<Vec<_>>().join(" "), if tape.is_empty() { "d:0A".to_string() } else { format!("d:{}", hex_of(&tape)) });
+            let line = format!("serialmt {} | {} |{}", msgs.iter().map(show_msg).collect::<Vec<_>>().join(" "), if tape.is_empty() { "d:0A".to_string() } else { format!("d:{}", hex_of(&tape)) }, wr);
             let i = out.case(line, true);
             out.stat("pace.multi");
             let got = out.impls[i].clone();
@@ -647,7 +706,8 @@ pub fn c18(thorough: bool, rng: &mut Rng, out: &mut Out) {
                     out.fail(i, format!("C18 exchange {} ({}): 30 ms between the end of its write and the next write observed {}, required {}: {}", k + 1, &show_msg(m)[..2], p.contains(" G:30"), want_gap, trunc(&got)));
                     break;
                 }
-                if expects_reply(m) {
+                // (with a failing flush an implementation may legitimately stop before reading: only the chunk pacing is judged)
+                if expects_reply(m) && wr.is_empty() {
                     let paced = matches!(replies.get(ri), Some(Message::ReportState(_, State::PageLoadInProgress)) | Some(Message::ReportState(_, State::PageShowInProgress)));
                     ri += 1;
                     if p.contains(" S:100") != paced {
@@ -655,6 +715,20 @@ pub fn c18(thorough: bool, rng: &mut Rng, out: &mut Out) {
                         break;
                     }
                 }
+            }
+        }
+    }
+    // the sign's reply in lower-case hex (the decoder accepts either case): an in-progress report is still one
+    {
+        let a = 3u16;
+        for (addr, st, paced) in [(a, State::PageLoadInProgress, true), (0x0A0B, State::PageShowInProgress, true), (0xABCD, State::PageLoadInProgress, true), (0x0A0B, State::PageLoaded, false)] {
+            let m = Message::QueryState(Address(addr));
+            let tape = msg_wire(&Message::ReportState(Address(addr), st)).to_ascii_lowercase();
+            let i = out.case(format!("serialt {} | d:{} |", show_msg(&m), hex_of(&tape)), true);
+            out.stat("pace.lower-case-reply");
+            let got = out.impls[i].clone();
+            if got.contains(" S:100") != paced || !got.contains("=> ok RS") {
+                out.fail(i, format!("C18 a lower-case {:?} report from {:04X}: 100 ms wait observed {}, required {}: {}", st, addr, got.contains(" S:100"), paced, trunc(&got)));
             }
         }
     }
@@ -726,8 +800,58 @@ fn c20_error_kinds(thorough: bool, out: &mut Out) {
     }
 }
 
+/// The full cross product prior settings (1008) x error kind (29) x refusing call (4): a refusal is an error whatever
+/// the port looked like before and whatever the kind (quick: the bus constructor; thorough: all three entry points).
+fn c20_cross_product(thorough: bool, out: &mut Out) {
+    let mut bauds: Vec<String> = (0..11).map(|b| b.to_string()).collect();
+    bauds.extend(["o0".to_string(), "o19200".to_string(), "o4000000".to_string()]);
+    let mut kinds: Vec<char> = vec!['n', 'v', 'i', 't', 'o', 'w', 'p'];
+    kinds.extend((0..crate::iomock::IO_KINDS.len()).map(|k| (b'A' + k as u8) as char));
+    let entries: &[&str] = if thorough { &["serial", "odk", "cfg:777"] } else { &["serial"] };
+    for b in &bauds {
+        for c in 0..4 {
+            for p in 0..3 {
+                for s in 0..2 {
+                    for f in 0..3 {
+                        for &kind in &kinds {
+                            for fail in ["read", "baud", "write", "timeout"] {
+                                for entry in entries {
+                                    let i = out.case(format!("port {} {},{},{},{},{} {}:{}", entry, b, c, p, s, f, fail, kind), true);
+                                    out.stat("port.cross-product");
+                                    if !out.impls[i].starts_with("err ") {
+                                        let got = out.impls[i].clone();
+                                        out.fail(i, format!("C20 the port (prior settings {},{},{},{},{}) refused {} with error kind {} but the constructor did not return an error: '{}'", b, c, p, s, f, fail, kind, got));
+                                    }
+                                }
+                            }
+                        }
+                    }
+                }
+            }
+        }
+    }
+}
+
+/// The caller's timeout is applied as given: zero, a nanosecond, just under a millisecond, odd fractions, hours,
+/// the largest value a u64 of nanoseconds can express.
+fn c20_timeouts(out: &mut Out) {
+    for ns in [0u64, 1, 999, 1_000, 999_999, 1_000_000, 1_000_001, 1_500_000, 999_999_999, 1_000_000_000, 5_000_000_001, 3_600_000_000_000, u64::MAX / 2, u64::MAX] {
+        for prior in ["0,1,2,1,1", "7,3,0,0,0"] {
+            let i = out.case(format!("port cfgn:{} {} never", ns, prior), true);
+            out.stat("port.caller-timeout");
+            let want = format!("ok 7,3,0,0,0 {}ns", ns);
+            if out.impls[i] != want {
+                let got = out.impls[i].clone();
+                out.fail(i, format!("C20 configure_port with a caller timeout of {} ns left the port as '{}', expected '{}'", ns, got, want));
+            }
+        }
+    }
+}
+
 pub fn c20(thorough: bool, rng: &mut Rng, out: &mut Out) {
     c20_error_kinds(thorough, out);
+    c20_timeouts(out);
+    c20_cross_product(thorough, out);
     out.rule = "every prior PortSettings value (11 standard baud rates + BaudOther{0,19200,4000000} x 4 character sizes x 3 parities x 2 stop bits x 3 flow controls = 1008) x failure injected at read_settings / set_baud_rate / write_settings / set_timeout / nowhere x {SerialSignBus::try_new, Odk::try_new, configure_port with a caller timeout}; plus every error kind (NoDevice, InvalidInput, Io Interrupted / TimedOut / Other / WouldBlock / PermissionDenied) at every failure point for a sample of prior settings; non-trivial = every case; distinct = distinct case line".into();
     out.exhaustive_note = "thorough: the product prior settings x failure points x entry points is enumerated completely; quick skips two thirds of the failure cases of the non-default entry points".into();
     out.exhaustive = thorough;
@@ -985,5 +1109,53 @@ pub fn c17(thorough: bool, rng: &mut Rng, out: &mut Out) {
             }
         }
     }
+    // a line identical to the reply the bridge has just written (an echo, or a sign-side frame injected on the bus)
+    // is a frame like any other: forwarded (the virtual bus ignores it), and the following query is answered by
+    // the NEXT call
+    {
+        let a = 3u16;
+        let hello = enc_nl(a, 2, &[0xFF]);
+        let query = enc_nl(a, 2, &[0x00]);
+        for st in [State::Unconfigured] {
+            let rep = msg_wire(&Message::ReportState(Address(a), st));
+            for (first, second) in [(hello.clone(), rep.clone()), (query.clone(), rep.clone()), (hello.clone(), rep.to_ascii_lowercase())] {
+                let mut stream = first.clone();
+                stream.extend_from_slice(&second);
+                stream.extend_from_slice(&query);
+                let i = out.case(format!("odk 3 M,{:04X};A,{:04X} | d:{} |", a, a + 9, hex_of(&stream)), true);
+                out.stat("odk.line-equal-to-own-last-reply");
+                let got = out.impls[i].clone();
+                let parts: Vec<&str> = got.split(" | ").collect();
+                let rs_: Vec<&str> = parts.first().map(|p| p.split(" ; ").collect()).unwrap_or_default();
+                if rs_.len() != 3 || !rs_[0].starts_with("ok w=3A") || !rs_[1].starts_with("ok w=-") || !rs_[2].starts_with("ok w=3A") {
+                    out.fail(i, format!("C17 a line equal to the bridge's own last reply must be forwarded like any frame, and the next query answered by the next call: '{}'", trunc(&got)));
+                }
+            }
+        }
+    }
+    long_transfer_on_one_bus(out, "C17");
     let _ = (ADDRS, PageFlipStyle::Manual, Offset(0));
+}
+
+/// One uninterrupted transfer of more than 64 KiB through ONE bus object (260 data frames of 255 bytes, about 8 s of
+/// pacing), then the chunk count and a query: byte or chunk tallies kept by the transport must not give out.
+pub fn long_transfer_on_one_bus(out: &mut Out, prop: &str) {
+    let a = 3u16;
+    let mut msgs: Vec<String> = vec![show_msg(&Message::RequestOperation(Address(a), flipdot_core::Operation::ReceivePixels))];
+    for k in 0..260usize {
+        let d: Vec<u8> = (0..255usize).map(|i| (i * 3 + k) as u8).collect();
+        msgs.push(show_msg(&sd(0, &d)));
+    }
+    msgs.push(show_msg(&Message::DataChunksSent(ChunkCount(260))));
+    msgs.push(show_msg(&Message::QueryState(Address(a))));
+    let mut tape = msg_wire(&Message::AckOperation(Address(a), flipdot_core::Operation::ReceivePixels));
+    tape.extend_from_slice(&msg_wire(&Message::ReportState(Address(a), State::PixelsReceived)));
+    let i = out.case(format!("serialm {} | d:{} |", msgs.join(" "), hex_of(&tape)), true);
+    out.stat("serial.transfer-over-64KiB-on-one-bus");
+    let got = out.impls[i].clone();
+    let parts: Vec<&str> = got.split(" ; ").collect();
+    let bad = parts.iter().position(|p| !p.contains("=> ok"));
+    if parts.len() != 263 || bad.is_some() {
+        out.fail(i, format!("{} a 66 300-byte transfer through one serial bus object: {} exchanges reported, first failing exchange {:?}", prop, parts.len(), bad.map(|b| b + 1)));
+    }
 }
